@@ -28,6 +28,11 @@ _MORE = {
  "C17": ("seq", "breadth-first search over all record/pass histories up to a depth on a real root scope with the Prometheus reporter (fresh registry per history, both timer flavours), Gather() compared with a reference tally after every pass; every sequence of up to 3 first uses of one name across the 5 metric kinds and 3 tag-key sets, with panicking and non-panicking error callbacks", "alphabet and depth bound; Prometheus client internals are exercised, not modelled"),
  "C18": ("seq", "the full product of names x values (one per varint length class and sign, gauge truncation edge cases, duration extremes) x sample rates, and of all bucket specifications up to length L x precisions 1..12, directly and through a root scope, is executed against a recording statsd client and compared with a reference rendering; plus all bucket-call histories up to a depth on one reporter", "alphabet bound"),
  "C19": ("seq", "every call history up to a depth over both reporter flavours for every child count 0..5 is executed against recording children sharing one ordered log and compared call by call with the reference fan-out; all 1365 capability assignments are enumerated", "argument alphabets of two values per call"),
+ "C12": ("seq", "every composition of metric shapes (counters, gauges, timers, value/duration histogram buckets; 1..600-char names, 0..8 tags, extreme values) up to a length, each letter reported once or many times, with flushes at every position, for both protocols and two common-tag sets, crossed with a sweep of MaxPacketSizeBytes starting at the smallest limit at which every single metric fits, is driven through the real reporter under the controlled scheduler's default schedule; every datagram received on a loopback socket is measured, decoded and compared with what was reported, in order", "loopback UDP is trusted; limits above the transport's 65000 bytes are outside; one (deterministic) schedule per composition"),
+ "C13": ("seq+sched", "breadth-first search over Allocate/Report/Flush histories (incl. the tag sets that collide in the hash-keyed tag cache) followed by Close, through the real reporter, thrift client and UDP transport into a loopback sink, run under the controlled scheduler with a virtual clock; the decoded multiset, tags, bucket tags, common tags, message framing and timestamps are compared with the reference; a producers/flusher/Close scenario is explored over interleavings", "loopback UDP is trusted; preemption bound 1-2 and a bound on non-default choices at blocking points for the interleaving scenario"),
+ "C14": ("sched", "interleavings (bounded preemptions and bounded non-default choices at blocking points) of producers, a flusher, Close and calls after Close on the real M3 reporter with a queue of one, with the destination socket closed before or in the middle: panics (the channel shim panics on send-to-closed like the runtime), deadlock, livelock in Close's spin loop, leaked goroutines and datagrams after Close are checked on every execution; the data-race clause is checked by the free-running -race pass", "preemption bound 1 (quick) / 2 (thorough), at most 2/3 non-default choices at non-preemptive points; races only sampled"),
+ "C15": ("seq", "breadth-first search over all sequences of Write/WriteByte/WriteString/Flush/Close and a socket fault up to a depth on the real UDP transport with 1-3 destinations against a byte-buffer reference model, every datagram compared byte for byte; message-level fault sequences (small batch, batch that does not fit a UDP packet, flush) through the real reporter and generated client", "loopback UDP is trusted"),
+ "C16": ("seq", "round trip and encoder/size-calculator agreement over batch shapes varied one field at a time (every string length 0..300+, every varint length class, doubles incl. NaN payloads, list sizes around the compact-protocol threshold) through ONE reused encoder and calculator per protocol; all sequences of complete and abandoned writes through a reused protocol; placeholder-size upper bound over the value alphabet", "values outside the alphabets are not covered"),
 }
 CHECKS.update(_MORE)
 
